@@ -1229,6 +1229,11 @@ func RunC09(c *core.Ctx) {
 		"plus unregistered cipher ids and unknown suite names per key type; both tiers add tuples whose device key has another type than the manufacturer and " +
 		"owner keys (quick: 13 fixed, thorough: every ordered pair of key types x suite x 2 ciphers; failures carry the prefix mixed-keys:); the expected outcome of a tuple is the library's own Valid && Available"
 
+	c.Rep.Rule += ckRule
+	if ckOnly() { // development aid: matrix_more.go alone
+		runC09CoseKeys(c)
+		return
+	}
 	// ---- part 1 ----
 	t1 := time.Now()
 	for _, d := range mxDevReps {
@@ -1385,6 +1390,7 @@ func RunC09(c *core.Ctx) {
 	}
 	c.Note("part 2: %d tuples (%d predicted allowed, %d forbidden) on %d workers in %.1fs; slowest %s %.1fs", nValid+nForbidden, nValid, nForbidden, nWorkers,
 		time.Since(t3).Seconds(), slowT, slow.Seconds())
+	runC09CoseKeys(c) // matrix_more.go: COSE-key encoded EC keys with short coordinates
 	c.Rep.Exhaustive = !c.Quick()
 }
 
